@@ -1415,4 +1415,23 @@ void dec_sync_all_threads(EbDecHandle *dec_handle_ptr) {
     /*Destroying lib created thread's*/
     EB_DESTROY_THREAD_ARRAY(dec_handle_ptr->decode_thread_handle_array,
                             dec_handle_ptr->dec_config.threads - 1);
+
+    /* The thread semaphores and the stage mutexes created by dec_system_resource_init() are not
+       tracked by the decoder memory map: release them here, now that no worker is left */
+    for (uint32_t lib_thrd = 0; lib_thrd < dec_handle_ptr->dec_config.threads - 1; lib_thrd++)
+        EB_DESTROY_SEMAPHORE(dec_handle_ptr->thread_ctxt_pa[lib_thrd].thread_semaphore);
+    EB_DESTROY_SEMAPHORE(dec_handle_ptr->thread_semaphore);
+    EB_DESTROY_MUTEX(dec_mt_frame_data->motion_proj_info.motion_proj_mutex);
+    if (dec_mt_frame_data->parse_recon_tile_info_array) {
+        /* one entry per tile of the frame the resources were sized for */
+        for (int32_t tile = 0; tile < dec_mt_frame_data->parse_tile_info.num_sb_rows; tile++)
+            EB_DESTROY_MUTEX(dec_mt_frame_data->parse_recon_tile_info_array[tile].tile_sbrow_mutex);
+    }
+    EB_DESTROY_MUTEX(dec_mt_frame_data->parse_tile_info.sbrow_mutex);
+    EB_DESTROY_MUTEX(dec_mt_frame_data->recon_tile_info.sbrow_mutex);
+    EB_DESTROY_MUTEX(dec_mt_frame_data->tile_switch_mutex);
+    EB_DESTROY_MUTEX(dec_mt_frame_data->lf_frame_info.lf_sb_row_info.sbrow_mutex);
+    EB_DESTROY_MUTEX(dec_mt_frame_data->cdef_sb_row_info.sbrow_mutex);
+    EB_DESTROY_MUTEX(dec_mt_frame_data->lr_sb_row_info.sbrow_mutex);
+    EB_DESTROY_MUTEX(dec_mt_frame_data->temp_mutex);
 }
